@@ -307,6 +307,10 @@ func (p *parser) newForInStmt(inExpr *ast.Node, body *ast.BlockStmt, forTk Item)
 		return nil
 	}
 
+	if expr.LHS == nil || expr.RHS == nil { // an operand failed to parse; its error is already recorded
+		return nil
+	}
+
 	switch expr.LHS.NodeType { //nolint:exhaustive
 	case ast.TypeIdentifier:
 	default:
